@@ -27,11 +27,16 @@ fn parse_here(text: &str) -> Value {
         Ok(Err(_)) => { e["ok"] = json!(false); }
         Ok(Ok(ds)) => {
             e["ok"] = json!(true);
-            e["sym"] = dsym_json(&ds);
+            // TLC integers are 32-bit: a symbol with a branching number beyond 2^31 - 1 cannot be handed to the
+            // specification; for such symbols only totality and the (trivial) equality of the re-parsed symbol are recorded
+            let huge = (0..ds.dim()).any(|i| (1..=ds.size()).any(|d| ds.v(i, i + 1, d).unwrap_or(0) > i32::MAX as usize)) || ds.size() > 100_000;
+            e["huge"] = json!(huge);
+            e["sym"] = if huge { json!({}) } else { dsym_json(&ds) };
             match catch(|| { let p = ds.to_string(); let r = p.parse::<PartialDSym>(); (p, r) }) {
                 Err(m) => { e["panic"] = json!(format!("print/reparse: {m}")); }
-                Ok((p, Err(_))) => { e["printed"] = json!(p); e["reparse_ok"] = json!(false); e["reparse_sym"] = json!({}); }
-                Ok((p, Ok(d2))) => { e["printed"] = json!(p); e["reparse_ok"] = json!(true); e["reparse_sym"] = dsym_json(&d2); }
+                Ok((p, Err(_))) => { e["printed"] = json!(p); e["reparse_ok"] = json!(false); e["reparse_same"] = json!(false); e["reparse_sym"] = json!({}); }
+                Ok((p, Ok(d2))) => { e["printed"] = json!(p); e["reparse_ok"] = json!(true); e["reparse_same"] = json!(d2 == ds);
+                                     e["reparse_sym"] = if huge { json!({}) } else { dsym_json(&d2) }; }
             }
         }
     }
